@@ -72,7 +72,7 @@ const (
 )
 
 var instructions = [256]instructionType{
-	{0x00, "brk", m_Implied, 1, 8, op_brk},                   // BRK
+	{0x00, "brk", m_Implied, 2, 8, op_brk},                   // BRK
 	{0x01, "ora", m_DP_X_Indirect, 2, 7, op_ora},             // ORA ($10,X)
 	{0x02, "cop", m_Immediate, 2, 8, op_cop},                 // COP #$12
 	{0x03, "ora", m_Stack_Relative, 2, 5, op_ora},            // ORA $32,S
